@@ -119,7 +119,10 @@ def run_job(args):
     seen = {}
     res['violations'], res['spurious'] = [], []
     for f in eng.findings:
-        if f.label in seen:
+        key = f.label
+        if 'window=' in (f.detail or ''):
+            key = (f.label, f.detail.rsplit('window=', 1)[1])
+        if key in seen:
             continue
         status, fails = run_concrete(job, f.model)
         for alt in getattr(f, 'alt_models', []):
@@ -128,7 +131,7 @@ def run_job(args):
             status, fails = run_concrete(job, alt)
             if status == 'failed':
                 f.model = alt
-        seen[f.label] = status
+        seen[key] = status
         rec = dict(label=f.label, kind=f.kind, detail=f.detail,
                    replay_status=status,
                    replay_failures=[list(map(str, x)) for x in fails][:5],
